@@ -1,7 +1,9 @@
 #!/usr/bin/env bash
-# run checks against seeded changes one after another: tools/seeded_queue.sh C13 C01 ...  (logs in work/me/seeded/)
+# run checks against seeded changes one after another: tools/seeded_queue.sh C13-1 C01-2 ...  (logs in work/me/seeded/)
 cd /verif; mkdir -p work/me/seeded
-for c in "$@"; do
-  tools/mutant_run.sh s$c /verif/seeded/$c-1/patch.diff $c quick > work/me/seeded/$c.log 2>&1
-  echo "$c $(grep MUTANT-RESULT work/me/seeded/$c.log)" >> work/me/seeded/summary.txt
+for s in "$@"; do
+  case "$s" in *-*) name=$s;; *) name=$s-1;; esac
+  c=${name%%-*}
+  tools/mutant_run.sh s$name /verif/seeded/$name/patch.diff $c quick > work/me/seeded/$name.log 2>&1
+  echo "$name $(grep MUTANT-RESULT work/me/seeded/$name.log)" >> work/me/seeded/summary.txt
 done
